@@ -780,6 +780,25 @@ def install(I):
         return old
     M['core::mem::replace'] = m_mem_replace
 
+    def m_mem_take(ctx):
+        """mem::take(dest) = mem::replace(dest, Default::default()) with the crate's own Default impl of the pointee"""
+        I, st = ctx.I, ctx.st
+        ref = ctx.args[0]
+        t = ctx.argtys[0].get('to') if ctx.argtys and ctx.argtys[0].get('k') == 'ref' else None
+        if not isinstance(ref, Ref) or not t or t.get('k') != 'adt':
+            return I.opaque_call(ctx)
+        m = I.lookup_impl('core::default::Default', 'default', [t])
+        f = I.fn.get(m) if m else None
+        if f is None:
+            return I.opaque_call(ctx)
+        outs = I.run_fn(f, [], st, {})
+        if len(outs) != 1 or outs[0].kind != 'ret':
+            return I.opaque_call(ctx)
+        old = deref(ctx, ref)
+        I.store(outs[0].st, ref, outs[0].val)
+        return [Outcome(outs[0].st, 'ret', old)]
+    M['core::mem::take'] = m_mem_take
+
     def m_mem_swap(ctx):
         a, b = ctx.args
         if not (isinstance(a, Ref) and isinstance(b, Ref)):
